@@ -14,13 +14,13 @@ import (
 
 // specEnv is the environment in which a contract expression is evaluated.
 type specEnv struct {
-	x      *Exec
-	fn     *ssa.Function // scope owner (for package lookup and locals)
-	fr     *frame        // non-nil: identifiers may resolve to live locals of this frame
-	st     *State
-	old    *State
-	names  map[string]Value // parameters, results, quantified variables
-	inOld  bool
+	x     *Exec
+	fn    *ssa.Function // scope owner (for package lookup and locals)
+	fr    *frame        // non-nil: identifiers may resolve to live locals of this frame
+	st    *State
+	old   *State
+	names map[string]Value // parameters, results, quantified variables
+	inOld bool
 }
 
 func (env *specEnv) with(name string, v Value) *specEnv {
@@ -278,6 +278,7 @@ func (env *specEnv) selectField(base Value, name string) Value {
 				cur = Value{T: ft, L: append([]Term(nil), cell.L[off:off+len(x.E.layout(ft))]...)}
 				continue
 			}
+			x.noteStructAddr(env.st, deref(cur.T), cur.L[0], cur.L[1])
 			cur = x.loadAt(env.st, ft, cur.L[0], offAdd(cur.L[1], x.E.fieldOff(st, fi)))
 			continue
 		}
@@ -327,6 +328,7 @@ func (env *specEnv) addrOf(e ast.Expr) (ref, off Term, t types.Type) {
 		curT := deref(base.T)
 		for k, fi := range index {
 			st := curT.Underlying().(*types.Struct)
+			x.noteStructAddr(env.st, curT, bref, boff)
 			boff = offAdd(boff, x.E.fieldOff(st, fi))
 			curT = st.Field(fi).Type()
 			if k < len(index)-1 && isPointer(curT) {
@@ -384,7 +386,7 @@ func (env *specEnv) indexValue(base, idx Value) Value {
 		return out
 	case *types.Basic:
 		if isString(base.T) {
-			return Value{T: types.Typ[types.Uint8], L: []Term{app(SBV8, "str.at", base.L[0], env.toBV64(idx))}}
+			return Value{T: types.Typ[types.Uint8], L: []Term{app(SBV8, "sx.at", base.L[0], env.toBV64(idx))}}
 		}
 	case *types.Map:
 		key := env.coerce(idx, u.Key())
@@ -525,7 +527,7 @@ func (env *specEnv) call(e *ast.CallExpr) Value {
 					return Value{T: it, L: []Term{v.L[3]}}
 				case *types.Basic:
 					if isString(v.T) {
-						return Value{T: it, L: []Term{app(SBV64, "str.len", v.L[0])}}
+						return Value{T: it, L: []Term{app(SBV64, "sx.len", v.L[0])}}
 					}
 				case *types.Array:
 					return Value{T: it, L: []Term{BVLitI(64, u.Len())}}
@@ -675,7 +677,6 @@ func (x *Exec) specCall(env *specEnv, callee *ssa.Function, args []Value) Value 
 		unsup("contract calls %s which has no body and no model", callee)
 	}
 	st := env.st.Clone()
-	st.Reach = True
 	exit, results, _ := x.run(callee, st, args, nil, x.E.contractFor(callee), true)
 	if exit == nil {
 		unsup("spec function %s never returns", callee)
